@@ -423,9 +423,12 @@ fn main() {
         std::thread::sleep(Duration::from_millis(50));
         // hung: more CPU time than the limit (a loop that never ends, however busy the machine is), or no end for
         // 8 x the limit of wall time
+        // ... or BLOCKED: well past the limit in wall time having used next to no CPU (a call waiting for a lock it
+        // holds itself burns nothing; a slow call on a busy machine still gets its share)
         let st = CASE_START_MS.load(Ordering::SeqCst);
         let cpu = cfb_verif_harness::watchdog::cpu_ms().saturating_sub(CASE_START_CPU_MS.load(Ordering::SeqCst));
-        if st != 0 && (cpu > limit_ms || (t0.elapsed().as_millis() as u64).saturating_sub(st) > 8 * limit_ms) {
+        let wall = (t0.elapsed().as_millis() as u64).saturating_sub(st);
+        if st != 0 && (cpu > limit_ms || wall > 8 * limit_ms || (wall > 2 * limit_ms && cpu < wall / 100)) {
             std::process::exit(4);
         }
     });
